@@ -107,7 +107,9 @@ def lexValue (k : Key) (v : List Char) : List Tok :=
   | .rule => lexRule (words v) .sBegin
   | _ => textTok v
 
-/-- one physical line: `none` = empty after `strip_comments` -/
+/-- one physical line: `none` = empty after `strip_comments`.  A `term` / `rule` line is read a second time by
+    `FllImporter.term / rule` through `extract_value(line, "term")`, which compares the text before the colon with the
+    key *without stripping it*: `term : …` (white space before the colon) is a `SyntaxError`. -/
 def lexLine (s : List Char) : Except Err (Option Line) :=
   let body := trimChars (s.takeWhile (· ≠ '#'))
   if body.isEmpty then .ok none
@@ -115,12 +117,28 @@ def lexLine (s : List Char) : Except Err (Option Line) :=
     | (_, []) => .error .syntax
     | (k, _ :: v) =>
       let key := Key.ofText (String.ofList (trimChars k))
-      .ok (some ⟨key, lexValue key (trimChars v)⟩)
+      if (key = .term ∨ key = .rule) ∧ k ≠ trimChars k then .error .syntax
+      else .ok (some ⟨key, lexValue key (trimChars v)⟩)
+
+/-- `str.split("\n")` -/
+def splitNl : List Char → List (List Char)
+  | [] => [[]]
+  | c :: r =>
+    if c = '\n' then [] :: splitNl r
+    else match splitNl r with
+      | [] => [[c]]
+      | h :: t => (c :: h) :: t
+
+/-- `"\n".join(...)` -/
+def joinNl : List (List Char) → List Char
+  | [] => []
+  | [a] => a
+  | a :: b :: r => a ++ '\n' :: joinNl (b :: r)
 
 def lexText (s : String) : Except Err (List Line) :=
-  (s.splitOn "\n").foldr (fun raw acc => do
+  (splitNl s.toList).foldr (fun raw acc => do
       let rest ← acc
-      match ← lexLine raw.toList with
+      match ← lexLine raw with
       | none => pure rest
       | some l => pure (l :: rest)) (.ok [])
 
